@@ -1,0 +1,49 @@
+package sio
+
+import "time"
+
+// Received packets are dispatched on their own goroutines, because handlers may block (for
+// example while waiting for an acknowledgement that arrives in a later packet). To keep the
+// handlers of one connection being entered in the order the packets were received, every
+// packet waits for the one before it: until that packet has reached its handler, and then
+// until its handler has returned or dispatchGrace has passed, whichever comes first.
+const dispatchGrace = 1 * time.Millisecond
+
+type dispatchSlot struct {
+	// Closed right before user code (middleware, handler) is entered for the packet,
+	// at the latest when the packet has been processed.
+	started chan struct{}
+	// Closed when the packet has been processed.
+	finished chan struct{}
+}
+
+func newDispatchSlot() *dispatchSlot {
+	return &dispatchSlot{
+		started:  make(chan struct{}),
+		finished: make(chan struct{}),
+	}
+}
+
+func newCompletedDispatchSlot() *dispatchSlot {
+	d := newDispatchSlot()
+	close(d.started)
+	close(d.finished)
+	return d
+}
+
+// wait blocks until the packet of this slot has reached its handler and the handler has
+// either returned or been running for dispatchGrace.
+func (d *dispatchSlot) wait() {
+	<-d.started
+	select {
+	case <-d.finished:
+		return
+	default:
+	}
+	t := time.NewTimer(dispatchGrace)
+	select {
+	case <-d.finished:
+		t.Stop()
+	case <-t.C:
+	}
+}
